@@ -7,7 +7,8 @@ LEVEL = "proof"
 WHOLE_TREE = True     # pi: the whole output tree of the executable model (positions aside)
 RULE = ("regression corpus + repository test snippets + seeded random programs (gen/jsgen.py) under pooled configurations; the "
         "extracted eraser (coq/Erase.v) is applied to the implementation's output tree and to the tree re-parsed from the printed "
-        "content, and compared with the lowered input; non-trivial = the file was modified; distinct by source text")
+        "content, and compared with the lowered input; every effectful sub-expression of the input (by kind and span) is counted in the output (exactly once: "
+        "coq/Erase.v dup_effects); non-trivial = the file was modified; distinct by source text")
 
 
 def cases(O):
@@ -22,6 +23,9 @@ def judge(ctx):
     if m.get("erase_ok") is False:
         out.append(Failure("erasing the instrumentation of the output tree does not give back the input: first difference at path %s: erased %s / input %s"
                            % (m.get("erase_diff_path"), (m.get("erase_diff_erased") or "")[:200], (m.get("erase_diff_input") or "")[:200])))
+    if m.get("dup_effects"):
+        out.append(Failure("once: %d effectful sub-expression(s) of the input (calls, assignments, updates, functions ...) are mentioned more often in the output than in the input, first at bytes %s"
+                           % (len(m["dup_effects"]), m["dup_effects"][0])))
     if ctx.modified and m.get("roundtrip_ok") is False:
         out.append(Failure("the printed content does not re-parse to the tree that was printed (up to spans, parentheses, literal spelling): tree %s / re-parsed %s"
                            % ((m.get("roundtrip_diff_out") or "")[:200], (m.get("roundtrip_diff_reparsed") or "")[:200])))
